@@ -215,7 +215,9 @@ Definition apply_slot_to_stack (g : graph) (start cur : id) (skip : list N) : op
   match cands with
   | [] => Some g
   | _ =>
-      let div := eq_diverges g cur in
+      (* since the fix in /repo ("optimiser must locate the current block by identity") the comparison is
+         `block is cur_block`: it cannot diverge any more; [eq_diverges] describes the pinned behaviour *)
+      let div := false in
       let order := iterate g start in
       let res := map (fun '(s, pos) => (s, deps_scan g order cur div s pos)) cands in
       if existsb (fun '(_, d) => match d with DepCrash => true | _ => false end) res then None
